@@ -7,7 +7,10 @@
 (* the projection of what the real parser built (kind, name, pub, extern)  *)
 (* after import expansion; a symbol is what an independent reader of the   *)
 (* IR text extracted from a `define` / `declare` line:                     *)
-(*   [name, base, kind \in {"define","declare"}, linkage]                  *)
+(*   [name, base, kind \in {"define","declare"}, linkage, vis]             *)
+(* (`vis`: the visibility style, "default" | "hidden" | "protected"; a     *)
+(* symbol is externally visible iff its linkage is external AND its        *)
+(* visibility is default)                                                  *)
 (* (`base` = name without the `.N` suffix LLVM's linker gives to a renamed *)
 (* local symbol).                                                          *)
 (*                                                                         *)
@@ -20,6 +23,7 @@ EXTENDS Naturals, Sequences, FiniteSets
 IsFn(d) == d.k = "fn" /\ d.p = "ok"
 IsHead(d) == d.k = "head" /\ d.p = "ok"
 MustBeExternal(d) == d.pub \/ d.name = "main"
+Visible(sym) == sym.linkage = "external" /\ (("vis" \in DOMAIN sym) => sym.vis = "default")
 
 Idx(s) == 1..Len(s)
 
@@ -29,7 +33,7 @@ DefinesAll(ds, syms) ==
         \E j \in Idx(syms) :
             /\ syms[j].kind = "define"
             /\ syms[j].name = ds[i].name
-            /\ MustBeExternal(ds[i]) => syms[j].linkage = "external"
+            /\ MustBeExternal(ds[i]) => Visible(syms[j])
 
 \* In the linked program every externally visible function must be defined and external.  A function
 \* that is neither pub nor main has local linkage; LLVM's linker drops local symbols of the linked-in
@@ -38,7 +42,7 @@ DefinesAll(ds, syms) ==
 DefinesAllLinked(ds, syms) ==
     \A i \in Idx(ds) : (IsFn(ds[i]) /\ MustBeExternal(ds[i])) =>
         \E j \in Idx(syms) :
-            /\ syms[j].kind = "define" /\ syms[j].name = ds[i].name /\ syms[j].linkage = "external"
+            /\ syms[j].kind = "define" /\ syms[j].name = ds[i].name /\ Visible(syms[j])
 LocalsKept(ds, syms) ==
     \A i \in Idx(ds) : (IsFn(ds[i]) /\ ~MustBeExternal(ds[i])) =>
         \E j \in Idx(syms) :
